@@ -104,8 +104,8 @@ theorem establish_inv (e : Ep) (il zc : Bool) (id : Nat) (pil pzc : Bool)
   · simpa [updateIl] using hq
 
 /-- clearing the stored chunks does not touch anything the invariant talks about -/
-theorem clearStored_inv (e : Ep) (il zc : Bool) (id : Nat) (pil pzc : Bool) (si : Bool) (sc : Option Nat)
-    (hI : EpInv e il zc id pil pzc) : EpInv { e with storedInit := si, storedCookie := sc } il zc id pil pzc := by
+theorem clearStored_inv (e : Ep) (il zc : Bool) (id : Nat) (pil pzc : Bool) (si : Bool) (sc : Option Nat) (ti tc : Bool)
+    (hI : EpInv e il zc id pil pzc) : EpInv { e with storedInit := si, storedCookie := sc, t1i := ti, t1c := tc } il zc id pil pzc := by
   obtain ⟨⟨hil, hzc, hid⟩, hder, hzero, hseen, hunseen, hst, hq⟩ := hI
   exact ⟨⟨hil, hzc, hid⟩, hder, hzero, hseen, hunseen, hst, hq⟩
 
@@ -125,8 +125,8 @@ theorem handleCookieEcho_inv (e : Ep) (il zc : Bool) (id : Nat) (pil pzc : Bool)
     · split
       · split
         · exact ⟨hI, by simp⟩
-        · have hE := establish_inv { e with storedInit := false, storedCookie := none } il zc id pil pzc
-            (clearStored_inv e il zc id pil pzc false none hI) (Or.inl (by simpa using hc))
+        · have hE := establish_inv { e with storedInit := false, storedCookie := none, t1i := false, t1c := false } il zc id pil pzc
+            (clearStored_inv e il zc id pil pzc false none false false hI) (Or.inl (by simpa using hc))
           exact ⟨hE, by simp [MsgFrom]⟩
       · exact ⟨hI, by simp⟩
 
@@ -139,7 +139,7 @@ theorem handleCookieAck_inv (e : Ep) (il zc : Bool) (id : Nat) (pil pzc : Bool)
   · rename_i hs
     have hst' : e.st = stCookieEchoed := by simpa using hs
     refine ⟨?_, by simp⟩
-    have h0 : EpInv { e with storedCookie := none } il zc id pil pzc := by
+    have h0 : EpInv { e with storedCookie := none, t1c := false } il zc id pil pzc := by
       obtain ⟨⟨hil, hzc, hid⟩, hder, hzero, hseen, hunseen, hst, hq⟩ := hI
       exact ⟨⟨hil, hzc, hid⟩, hder, hzero, hseen, hunseen, hst, hq⟩
     exact establish_inv _ il zc id pil pzc h0 (Or.inr (Or.inl hst'))
@@ -365,5 +365,127 @@ theorem established_flags (e : Ep) (il zc : Bool) (id : Nat) (pil pzc : Bool)
   · rw [d1, hil, s1]
   · rw [d2, hil, s1, s3]; cases il <;> cases pil <;> rfl
   · rw [d3, hil, s1, s2]; simp
+
+end Hs
+
+/-! ## T1 timers: running only in the state they belong to -/
+namespace Hs
+
+/-- T1-init runs only in COOKIE-WAIT, T1-cookie only in COOKIE-ECHOED -/
+def TInv (e : Ep) : Prop := (e.t1i = true → e.st = stCookieWait) ∧ (e.t1c = true → e.st = stCookieEchoed)
+
+theorem updateIl_t (e : Ep) : (updateIl e).t1i = e.t1i ∧ (updateIl e).t1c = e.t1c ∧ (updateIl e).st = e.st := ⟨rfl, rfl, rfl⟩
+theorem learnPeer_t (e : Ep) (ts : List Nat) (z : Option Nat) :
+    (learnPeer e ts z).t1i = e.t1i ∧ (learnPeer e ts z).t1c = e.t1c ∧ (learnPeer e ts z).st = e.st := ⟨rfl, rfl, rfl⟩
+
+theorem handleInit_tinv (e : Ep) (ts : List Nat) (z : Option Nat) (h : TInv e) : TInv (handleInit e ts z).1 := by
+  unfold handleInit
+  split
+  · exact h
+  · exact h
+
+theorem handleInitAck_tinv (e : Ep) (ts : List Nat) (z : Option Nat) (c : Nat) (_h : TInv e) : TInv (handleInitAck e ts z c).1 := by
+  unfold handleInitAck
+  split
+  · exact _h
+  · exact ⟨fun h => by simp at h, fun _ => rfl⟩
+
+theorem handleCookieEcho_tinv (e : Ep) (c : Nat) (h : TInv e) : TInv (handleCookieEcho e c).1 := by
+  unfold handleCookieEcho
+  split
+  · exact h
+  · split
+    · split <;> exact h
+    · split
+      · split
+        · exact h
+        · exact ⟨fun h' => by simp [establish, updateIl] at h', fun h' => by simp [establish, updateIl] at h'⟩
+      · exact h
+
+theorem handleCookieAck_tinv (e : Ep) (h : TInv e) : TInv (handleCookieAck e).1 := by
+  unfold handleCookieAck
+  split
+  · exact h
+  · rename_i hs
+    have hst : e.st = stCookieEchoed := by simpa using hs
+    refine ⟨fun h' => ?_, fun h' => by simp [establish, updateIl] at h'⟩
+    have : e.t1i = true := by simpa [establish, updateIl] using h'
+    have := h.1 this
+    rw [hst] at this
+    exact absurd this (by decide)
+
+theorem handle_tinv (e : Ep) (p : Pkt) (h : TInv e) : TInv (handle e p).1 := by
+  unfold handle
+  split
+  · exact h
+  · split
+    · exact handleInit_tinv e _ _ h
+    · exact handleInitAck_tinv e _ _ _ h
+    · exact handleCookieEcho_tinv e _ h
+    · exact handleCookieAck_tinv e h
+
+theorem start_tinv (e : Ep) (h : TInv e) (hc : e.st = stClosed) : TInv (start e).1 := by
+  refine ⟨fun _ => rfl, fun h' => ?_⟩
+  have : e.t1c = true := h'
+  have := h.2 this
+  rw [hc] at this
+  exact absurd this (by decide)
+
+theorem flush_tinv (e : Ep) (m : List Msg) (h : TInv e) : TInv (flush e m).1 := h
+
+theorem t1_tinv (e : Ep) (h : TInv e) : TInv (t1Init e).1 ∧ TInv (t1Cookie e).1 := by
+  constructor
+  · unfold t1Init; split <;> exact h
+  · unfold t1Cookie; split <;> exact h
+
+def SysT (s : Sys) : Prop := TInv s.a ∧ TInv s.b
+
+theorem ep_tinv {s : Sys} (h : SysT s) (x : Bool) : TInv (s.ep x) := by
+  cases x
+  · exact h.1
+  · exact h.2
+
+theorem put_tinv {s : Sys} (h : SysT s) (x : Bool) (e : Ep) (o : List Pkt) (he : TInv e) : SysT (s.put x e o) := by
+  cases x
+  · exact ⟨he, h.2⟩
+  · exact ⟨h.1, he⟩
+
+theorem step_tinv (s : Sys) (op : Op) (h : SysT s) : SysT (s.step op) := by
+  cases op with
+  | start x =>
+    simp only [Sys.step]
+    split
+    · rename_i hc
+      have hc' : (s.ep x).st = stClosed := by simpa using hc
+      exact put_tinv h x _ _ (flush_tinv _ _ (start_tinv _ (ep_tinv h x) hc'))
+    · exact h
+  | deliver x i =>
+    simp only [Sys.step]
+    split
+    · exact h
+    · exact put_tinv h (!x) _ _ (flush_tinv _ _ (handle_tinv _ _ (ep_tinv h (!x))))
+  | t1Init x =>
+    simp only [Sys.step]
+    exact put_tinv h x _ _ (flush_tinv _ _ (t1_tinv _ (ep_tinv h x)).1)
+  | t1Cookie x =>
+    simp only [Sys.step]
+    exact put_tinv h x _ _ (flush_tinv _ _ (t1_tinv _ (ep_tinv h x)).2)
+  | t1Queue x cookie =>
+    simp only [Sys.step]
+    apply put_tinv h x
+    cases cookie
+    · exact (t1_tinv _ (ep_tinv h x)).1
+    · exact (t1_tinv _ (ep_tinv h x)).2
+  | gather x =>
+    simp only [Sys.step]
+    exact put_tinv h x _ _ (flush_tinv _ _ (ep_tinv h x))
+
+theorem run_tinv (s : Sys) (ops : List Op) (h : SysT s) : SysT (s.run ops) := by
+  induction ops generalizing s with
+  | nil => exact h
+  | cons op ops ih => exact ih _ (step_tinv s op h)
+
+theorem init_tinv (a b c d : Bool) : SysT (Sys.init a b c d) :=
+  ⟨⟨fun h => by simp [Sys.init] at h, fun h => by simp [Sys.init] at h⟩, ⟨fun h => by simp [Sys.init] at h, fun h => by simp [Sys.init] at h⟩⟩
 
 end Hs
